@@ -79,18 +79,12 @@ func (s *simplifier) visit(node Node) {
 	case *Subshell:
 		node.Stmts = s.inlineSubshell(node.Stmts)
 	case *DblQuoted:
-		Walk(node, func(n Node) bool {
-			if _, ok := n.(*CmdSubst); ok {
-				return false // quoting starts afresh within "$(...)"
-			}
-			if w, ok := n.(*Word); ok {
-				if s.dblQuoted == nil {
-					s.dblQuoted = make(map[*Word]bool)
-				}
-				s.dblQuoted[w] = true
-			}
-			return true
-		})
+		s.markDblQuoted(node)
+	case *Redirect:
+		if node.Hdoc != nil {
+			// A heredoc body is expanded like a double-quoted string.
+			s.markDblQuoted(node.Hdoc)
+		}
 	case *Word:
 		if !s.dblQuoted[node] {
 			node.Parts = s.simplifyWord(node.Parts)
@@ -169,6 +163,23 @@ parts:
 		}
 	}
 	return wps
+}
+
+// markDblQuoted records the words found within node, which is expanded like a
+// double-quoted string, so that they are not rewritten to use single quotes.
+func (s *simplifier) markDblQuoted(node Node) {
+	Walk(node, func(n Node) bool {
+		if _, ok := n.(*CmdSubst); ok {
+			return false // quoting starts afresh within "$(...)"
+		}
+		if w, ok := n.(*Word); ok {
+			if s.dblQuoted == nil {
+				s.dblQuoted = make(map[*Word]bool)
+			}
+			s.dblQuoted[w] = true
+		}
+		return true
+	})
 }
 
 // markIndex records the expressions which make up an array index,
